@@ -1,9 +1,9 @@
 #!/bin/bash
-# usage: tools/seed_batch.sh <PROP> <A|B> <checks,comma,separated>   (round-2 seeded changes under /tmp/seed2/<PROP>/out/<X>)
+# usage: [ROUND=3] tools/seed_batch.sh <PROP> <A|B> <checks,comma,separated>   (seeded changes under /tmp/seed<ROUND>/<PROP>/out/<X>)
 cd "$(dirname "$0")/.."
-prop="$1"; x="$2"; checks="${3:-$1}"
-python3 tools/seed_eval.py /tmp/seed2/$prop/out/$x $prop $prop-r2-$x --checks $checks > /tmp/seedeval-$prop-$x.log 2>&1
-python3 - "$prop-r2-$x" <<'P'
+prop="$1"; x="$2"; checks="${3:-$1}"; r="${ROUND:-2}"
+python3 tools/seed_eval.py /tmp/seed$r/$prop/out/$x $prop $prop-r$r-$x --checks $checks > /tmp/seedeval-$prop-$x.log 2>&1
+python3 - "$prop-r$r-$x" <<'P'
 import json,sys
 m=json.load(open(f'/verif/seeded/{sys.argv[1]}/meta.json'))
 print(sys.argv[1], 'demo', m.get('demo_clean_exit'), m.get('demo_patched_exit'), '|', ' '.join(f"{k}:{v['verdict']}" for k,v in (m.get('checks') or {}).items()))
